@@ -79,3 +79,10 @@ package constraint
 //@   ensures @fails-only-if-unsat-B result != nil && old(solved(s, inst.Calldata[0])) && !old(solved(s, inst.Calldata[1])) ==> forall x F :: gateAt(s, c, val(s, c.XA), x, val(s, c.XC)) != f0
 //@   ensures @fails-only-if-unsat-C result != nil && old(solved(s, inst.Calldata[0])) && old(solved(s, inst.Calldata[1])) && !old(solved(s, inst.Calldata[2])) ==> forall x F :: gateAt(s, c, val(s, c.XA), val(s, c.XB), x) != f0
 //@   ensures @fails-only-if-violated result != nil && old(solved(s, inst.Calldata[0])) && old(solved(s, inst.Calldata[1])) && old(solved(s, inst.Calldata[2])) ==> gate(s, c) != f0
+
+// ---- C09: after decoding, the header check restores the field of the system from its serialized hex
+// modulus: q is that number and bitLen is its bit length (both are unexported and not part of the encoding).
+//@ contract (*System).CheckSerializationHeader
+//@   props C09
+//@   requires system != nil
+//@   ensures @field-restored result == nil ==> system.q != nil && *system.q == strNum(system.ScalarField, 16) && (*system.q >= 0 ==> fits(*system.q, system.bitLen) && (system.bitLen > 0 ==> !fits(*system.q, system.bitLen - 1)))
